@@ -500,6 +500,30 @@ func main() {
 							if (ierr == nil) != (err == nil) || (err == nil && ic != was) {
 								return explore.Failf("IsCompressed-disagrees", "")
 							}
+							// the message state: only the first frame of a data message decides; any other
+							// frame - accepted or refused - leaves what the state says as it was
+							for _, before := range []bool{false, true} {
+								var ms wsflate.MessageState
+								ms.SetCompressed(before)
+								mg, merr := ms.UnsetBits(h)
+								if (merr == nil) != (err == nil) || (err == nil && mg != g) {
+									return explore.Failf("MessageState.UnsetBits-differs-from-UnsetBit", "state %v: %+v %v; UnsetBit: %+v %v", before, mg, merr, g, err)
+								}
+								want := before
+								if data {
+									want = rsv&4 != 0
+								}
+								if ms.IsCompressed() != want {
+									return explore.Failf("MessageState-disturbed", "state said %v; after UnsetBits(%+v) (err=%v) it says %v, want %v", before, h, merr, ms.IsCompressed(), want)
+								}
+								// send side: SetBits never changes the state either
+								var ss wsflate.MessageState
+								ss.SetCompressed(before)
+								ss.SetBits(h)
+								if ss.IsCompressed() != before {
+									return explore.Failf("MessageState-disturbed-by-SetBits", "%+v", h)
+								}
+							}
 							// SetBit
 							s, serr := wsflate.SetBit(h)
 							switch {
